@@ -1141,6 +1141,27 @@ def kind_of(w):
   return k
 
 
+DOWNCAST_HOOK = None     # set by the executor: callable(val_expr, record_kind, unless)
+_HOOK_OFF = [0]          # > 0 while a contract clause (not executed code) is being evaluated
+
+
+class no_downcast_checks:
+  """Context manager: views of opaque values built by contract text are not code."""
+
+  def __enter__(self):
+    _HOOK_OFF[0] += 1
+
+  def __exit__(self, *a):
+    _HOOK_OFF[0] -= 1
+
+
+def _downcast(w, kind, unless=None):
+  """Executed code stores / passes an opaque value where the contract declared a record kind:
+  that view is only sound if the value IS such a record -- an obligation, not an assumption."""
+  if DOWNCAST_HOOK is not None and not _HOOK_OFF[0] and isinstance(kind, KRecord):
+    DOWNCAST_HOOK(w.e, kind, unless)
+
+
 def coerce(w, kind):
   """Convert wrapper `w` to the given kind where a canonical conversion exists."""
   if isinstance(w, W) and w.kind is kind:
@@ -1154,7 +1175,9 @@ def coerce(w, kind):
       raise OutOfSubset(f'optional kind mismatch {w.kind.name} vs {kind.name}')
     if isinstance(w, VObj) and kind.inner is not KVal:
       val_axioms()
-      return VOpt(kind, w.e == VAL_NONE, coerce(w, kind.inner))
+      _downcast(w, kind.inner, unless=w.e == VAL_NONE)
+      with no_downcast_checks():
+        return VOpt(kind, w.e == VAL_NONE, coerce(w, kind.inner))
     return VOpt(kind, z3.BoolVal(False), coerce(w, kind.inner))
   if kind is KVal:
     return VObj(to_val(w))
@@ -1177,6 +1200,7 @@ def coerce(w, kind):
   if isinstance(w, W) and w.kind is not None and w.kind.name == kind.name:
     return w
   if isinstance(w, VObj) and isinstance(kind, (KList, KDict, KTuple, KRecord)):
+    _downcast(w, kind)
     f = ufun('val_as_' + _sort_name(kind.name), Val, kind.sort())
     return kind.unbox(f(w.e))
   if isinstance(kind, KTuple) and isinstance(w, VTuple):
